@@ -295,6 +295,31 @@ func (e *vEnv) quiesce() {
 	}
 }
 
+// vGateFlight wraps a SingleFlight: a driver thread whose current operation has code 2 waits for
+// its gate before the call is passed on.
+type vGateFlight struct {
+	inner SingleFlight
+	env   *vEnv
+}
+
+func (f *vGateFlight) hold() {
+	if th := f.env.selfThread(); th != nil {
+		if cur := f.env.curOp(th); cur.Code == 2 {
+			f.env.waitGate(th, cur.B)
+		}
+	}
+}
+
+func (f *vGateFlight) Do(key string, fn func() (any, error)) (any, error) {
+	f.hold()
+	return f.inner.Do(key, fn)
+}
+
+func (f *vGateFlight) DoEx(key string, fn func() (any, error)) (any, bool, error) {
+	f.hold()
+	return f.inner.DoEx(key, fn)
+}
+
 type vRes struct {
 	id       int
 	env      *vEnv
@@ -331,6 +356,9 @@ func TestVerifDriver(t *testing.T) {
 				}
 			})
 			return map[string]any{"hist": [][6]int{}, "results": [][][2]int{}, "ctor_panic": panicked, "stuck": 0, "timeouts": 0}
+		}
+		if c.Prim == "oncex" {
+			return vOnceLong(&c)
 		}
 		if c.Prim == "spinx" || c.Prim == "donex" {
 			return vStress(&c)
@@ -466,6 +494,54 @@ func vStress(c *vCase) any {
 	}
 	return map[string]any{"hist": [][6]int{}, "results": results, "stuck": 0, "timeouts": 0,
 		"info": fmt.Sprintf("%s g=%d %dms procs=%d", c.Prim, g, c.M, runtime.GOMAXPROCS(0))}
+}
+
+// vOnceLong: one goroutine calls OnceGuard.Take 2^N + 2 times (N = 32 covers a wrapping uint32
+// call counter), another one a thousand times meanwhile; exactly one Take ever returns true.
+// Observation in the shape of the stress cases: (rounds (capped), violations) per goroutine.
+func vOnceLong(c *vCase) any {
+	var og OnceGuard
+	var trues int64
+	calls := uint64(1)<<uint(c.N) + 2
+	var wg sync.WaitGroup
+	wg.Add(2)
+	go func() {
+		defer wg.Done()
+		n := int64(0)
+		for i := uint64(0); i < calls; i++ {
+			if og.Take() {
+				n++
+			}
+		}
+		atomic.AddInt64(&trues, n)
+	}()
+	go func() {
+		defer wg.Done()
+		n := int64(0)
+		for i := 0; i < 1000; i++ {
+			if og.Take() {
+				n++
+			}
+			runtime.Gosched()
+		}
+		atomic.AddInt64(&trues, n)
+	}()
+	wg.Wait()
+	if og.Take() { // and one more after everybody is done
+		trues++
+	}
+	extra, none := 0, 0
+	if trues > 1 {
+		extra = int(trues - 1)
+		if extra > 4000 {
+			extra = 4000
+		}
+	}
+	if trues == 0 || !og.Taken() {
+		none = 1
+	}
+	return map[string]any{"hist": [][6]int{}, "results": [][][2]int{{{4000, extra}}, {{1000, none}}}, "stuck": 0, "timeouts": 0,
+		"info": fmt.Sprintf("oncex calls=2^%d+2 trues=%d", c.N, trues)}
 }
 
 func vRun(c *vCase) any {
@@ -738,13 +814,21 @@ func vRun(c *vCase) any {
 						res = [2]int{0, 2}
 					}
 				}()
-				id := p.Get().(int)
-				heldMu.Lock()
-				th.held = append(th.held, id)
-				heldMu.Unlock()
+				id, isRes := p.Get().(int) // a nil (or foreign) item is reported as resource 0
+				if isRes {
+					heldMu.Lock()
+					th.held = append(th.held, id)
+					heldMu.Unlock()
+				}
 				now := nowMs()
 				env.log(th.id, kRet, 0, id, now, 0)
 				return [2]int{id, 0}
+			}
+			if op.Code == 2 { // Put(nil): a stray Put that is not paired with a Get
+				env.log(th.id, kInv, 2, 0, nowMs(), 0)
+				p.Put(nil)
+				env.log(th.id, kRet, 2, 0, nowMs(), 0)
+				return [2]int{0, 0}
 			}
 			heldMu.Lock()
 			if len(th.held) == 0 {
@@ -773,6 +857,8 @@ func vRun(c *vCase) any {
 		}
 	case "rm":
 		m := NewResourceManager()
+		// a Get with code 2 is held up (gate B) at the moment it enters the manager's single flight
+		m.singleFlight = &vGateFlight{inner: m.singleFlight, env: env}
 		var nextID int32
 		exec = func(th *vThread, op vOp) (res [2]int) {
 			if op.Code == 1 {
@@ -794,7 +880,9 @@ func vRun(c *vCase) any {
 			}()
 			r, err := m.Get("k"+strconv.Itoa(op.A), func() (io.Closer, error) {
 				env.log(th.id, kBegin, 0, op.A, 0, 0)
-				env.waitGate(th, op.B)
+				if op.Code == 0 {
+					env.waitGate(th, op.B)
+				}
 				if op.C == 1 {
 					env.log(th.id, kEnd, 0, op.A, 0, 1)
 					return nil, errVerifCreate
